@@ -342,6 +342,15 @@ def run(ctx):
         for n in astx.walk_fn(rw.node):
             if isinstance(n, ast.Assign) and isinstance(n.targets[0], ast.Subscript) and rules.enum_member(n.targets[0].slice, "NetworkNames"):
                 app_st[rules.enum_member(n.targets[0].slice, "NetworkNames")] = n
+        # the annotations may travel with the edge: add_edges_from([(u, v, {KEY: value, ..})]) / add_edge(u, v, **{KEY: value})
+        for n in astx.walk_fn(rw.node):
+            if isinstance(n, ast.Call) and isinstance(n.func, ast.Attribute) and n.func.attr in ("add_edges_from", "add_edge"):
+                for d_ in [x for x in ast.walk(n) if isinstance(x, ast.Dict)]:
+                    for k_, v_ in zip(d_.keys, d_.values):
+                        mem_ = rules.enum_member(k_, "NetworkNames") if k_ is not None else None
+                        if mem_ and mem_ not in app_st:
+                            app_st[mem_] = ast.copy_location(ast.Assign(targets=[ast.Subscript(value=ast.Name(id="_edge_attrs", ctx=ast.Load()), slice=k_, ctx=ast.Store())], value=v_,
+                                                                        lineno=n.lineno, col_offset=n.col_offset), n)
         for mem, fld in (("TOPOLOGY", "topology"), ("MOTIF_IDS", "motif_id")):
             st = app_st.get(mem)
             if st is None and any(isinstance(n, ast.Call) and isinstance(n.func, ast.Attribute) and n.func.attr == "add_edge" and n.keywords for n in astx.walk_fn(rw.node)):
